@@ -419,7 +419,7 @@ func TestMutatedFileSets(t *testing.T) {
 // ---- listed conditions: exact limits and references ----------------------------------------------------------------
 
 func TestLimitsAndReferences(t *testing.T) {
-	ev.Rule(chkLimits, "rapid: a valid file set, then exactly one listed condition: one per-type file-size limit set to the file's compressed size (must accept) and size-1 (must reject) with all other limits huge; the decompression limit (size x factor) set to exactly the decompressed size (accept) and one less (reject) using whitespace padding; each referenced file in turn re-hosted under a longer URI with maxCasUriLength set to that length (accept) and one less (reject); a proof / chunk reference removed where required or added where superfluous; one entry dropped from / added to an index, proof or delta array so that counts disagree; a suffix repeated across sections; oracle: must-reject cases are rejected, must-accept cases read back; non-trivial = every case")
+	ev.Rule(chkLimits, "rapid: a valid file set, then exactly one listed condition: one per-type file-size limit set to the file's compressed size (must accept) and size-1 (must reject) with all other limits huge, the file read from the primary CAS or (one in two) served by an alternate source after a failed primary read; the decompression limit (size x factor) set to exactly the decompressed size (accept) and one less (reject) using whitespace padding; each referenced file in turn re-hosted under a longer URI with maxCasUriLength set to that length (accept) and one less (reject); a proof / chunk reference removed where required or added where superfluous; one entry dropped from / added to an index, proof or delta array so that counts disagree; a suffix repeated across sections; oracle: must-reject cases are rejected, must-accept cases read back; non-trivial = every case")
 	ev.Rapid(t, chkLimits, 600, 8000, func(t *rapid.T) {
 		fs := buildSet(t)
 		var present []string
@@ -486,11 +486,17 @@ func TestLimitsAndReferences(t *testing.T) {
 				setLimit(role, size-1)
 				c.MustReject, c.Note = "a file larger than its per-type size limit", fmt.Sprintf("%s size limit == compressed size %d - 1", role, size)
 			}
+			if rapid.Bool().Draw(t, "viaAlternateSource") {
+				// the same limit must hold when the primary read fails and an alternate source serves the file
+				c.FailRead, c.Alt = []string{fs.addr[role]}, true
+				c.Note += " (file served by an alternate source)"
+			}
 		case "decompressed-size":
 			role := rapid.SampledFrom(present).Draw(t, "file")
 			if role == "coreProof" || role == "provProof" {
 				role = "coreIndex"
 			}
+			viaAlt := rapid.Bool().Draw(t, "viaAlternateSource")
 			fs.put(c, role, 3000+rapid.IntRange(0, 50).Draw(t, "pad"))
 			raw, _ := gunzip(c.Files[fs.addr[role]])
 			d := uint(len(raw))
@@ -501,6 +507,10 @@ func TestLimitsAndReferences(t *testing.T) {
 			} else {
 				setLimit(role, d-1)
 				c.MustReject, c.Note = "a file decompressing to more than limit x factor", fmt.Sprintf("%s limit x factor == decompressed size %d - 1", role, d)
+			}
+			if viaAlt {
+				c.FailRead, c.Alt = []string{fs.addr[role]}, true
+				c.Note += " (file served by an alternate source)"
 			}
 		case "uri-length":
 			// one reference at a time: the referenced file is re-hosted under a longer address, so that only the
